@@ -84,7 +84,9 @@ def build(repo):
                ghost_return=[('G.pending', 'False'), ('G.offered', '1'), ('G.mver', 'G.mver + 1'), ('G.lastslot', 'k'), ('G.nptver', 'G.nptver + 1')],
                ensures=['not G.pending', 'G.offered == 1', 'G.mver == old(G.mver) + 1', 'G.lastslot == k', 'G.nptver == old(G.nptver) + 1',
                         'A-M (growing counter + the assert "Growing: updating wrong point", proved in bundle model): npt() grows by at most the new slot:: '
-                        'NPT(G.nptver) <= max(old(NPT(G.nptver)), k + 1)'], assumed=True, notes=CONS_NOTE)
+                        'NPT(G.nptver) <= max(old(NPT(G.nptver)), k + 1)',
+                        'A-M (same facts, lower side; num_pts is not changed by change_point):: NUMPTS(G.nptver) == old(NUMPTS(G.nptver)) and NPT(G.nptver) >= old(NPT(G.nptver)) and '
+                        'NPT(G.nptver) >= min(NUMPTS(G.nptver), k + 1)'], assumed=True, notes=CONS_NOTE)
     D.contract('Model.add_new_point', tags=['C04', 'C03'], params={'x': 'val', 'rvec': 'val', 'eval_num': 'int'},
                requires=[('an evaluated point is pending:: G.pending', 'C03'),
                          ('point is the one just evaluated (step + base == evaluated x):: ABS(G.gen, x) == G.lastx',) + T3,
@@ -135,11 +137,12 @@ def build(repo):
                notes='ghost-defining: a base shift starts a new base generation (absolute points are unchanged: proved in domain M)')
 
     # ---------------------------------------------------------------- Controller.__init__
-    D.contract('Controller.__init__', tags=['C02'], params={'nf': 'int', 'nx': 'int', 'maxfun': 'int'},
+    D.contract('Controller.__init__', tags=['C02'], params={'nf': 'int', 'nx': 'int', 'maxfun': 'int', 'npt': 'int'},
                modifies=['self.*', 'G.mver', 'G.gen', 'G.lastslot', 'G.proj', 'G.nptver'],
                ghost_return=[('G.mver', None), ('G.gen', None), ('G.lastslot', None), ('G.proj', None), ('G.nptver', None)],
                ensures=['self.nf == nf', 'self.nx == nx', 'self.maxfun == maxfun', 'self.last_successful_run == 0',
-                        'A-M (Model.__init__, proved in bundle model: a new model holds the single record x0, which is the incumbent):: NPT(G.nptver) == 1 and KOPT(G.mver) == 0'])
+                        'A-M (Model.__init__, proved in bundle model: a new model holds the single record x0, which is the incumbent, and has room for npt points):: '
+                        'NPT(G.nptver) == 1 and KOPT(G.mver) == 0 and NUMPTS(G.nptver) == npt'])
 
     # ---------------------------------------------------------------- Controller methods that may evaluate
     common_req = ['INV_ledger(self)', 'not G.pending', 'every stored point has all its samples:: G.offered == G.lastk']
@@ -172,13 +175,18 @@ def build(repo):
     method('Controller.add_new_direction_while_growing', 'optexit', 'result')
     FRESH = ('the model holds only x0 when initialisation starts:: NPT(G.nptver) == 1', 'C04')
     grow = lambda c: ('(C04 ii) initialisation fills new slots only: the model holds at most this many records so far:: NPT(G.nptver) <= i_ + %d' % c, 'C04')
-    method('Controller.initialise_coordinate_directions', 'optexit', 'result', extra_tags=['C14'],
+    full = lambda c: ('(C19 N5) one new slot per direction: at least this many records are stored so far (or the set is full):: NPT(G.nptver) >= min(NUMPTS(G.nptver), i_ + %d) and '
+                      'NUMPTS(G.nptver) == old(NUMPTS(G.nptver))' % c, 'C19')
+    FULL_ENS = ('(C19 N5) without projections a completed initialisation has stored one point per requested direction (or filled the set):: '
+                'implies(isnone(result) and not G.proj, NPT(G.nptver) >= min(NUMPTS(G.nptver), 1 + num_directions) and NUMPTS(G.nptver) == old(NUMPTS(G.nptver)))', 'C19')
+    method('Controller.initialise_coordinate_directions', 'optexit', 'result', extra_tags=['C14'], params={'num_directions': 'int'},
            extra_req=['parallel coordinate initialisation is rejected by solve (O8: expected dead):: not params("init.run_in_parallel")', FRESH],
-           loops={'for:k#0': [grow(1)], 'for:k#2': [grow(0)], 'for:k#3': [grow(0)]},
+           loops={'for:k#0': [grow(1)], 'for:k#2': [grow(0)], 'for:k#3': [grow(0), full(0)]}, extra_ens=[FULL_ENS],
            dead_under=['init.run_in_parallel'])
     method('Controller.initialise_random_directions', 'optexit', 'result', extra_tags=['C14'],
            extra_req=[('batched (parallel) initialisation is outside the ledger contract (D6/D23):: not params("init.run_in_parallel")', 'C03', 'C04'), FRESH],
-           loops={'for:ndirns#1': [grow(1)], 'for:ndirns#2': [grow(1)]},
+           params={'num_directions': 'int'}, extra_ens=[FULL_ENS],
+           loops={'for:ndirns#1': [grow(1)], 'for:ndirns#2': [grow(1), full(1)]},
            dead_under=['init.run_in_parallel'])
     method('Controller.move_furthest_points', 'optexit', 'result', asserts={'before:Controller.geometry_step#1': [N2]})
     method('Controller.move_furthest_points_momentum', 'optexit', 'result', asserts={'before:Model.change_point#1': [N2]})
@@ -217,9 +225,10 @@ def build(repo):
                requires=['G.calls == nf_so_far', 'G.pts == nx_so_far', '0 <= nx_so_far', 'nx_so_far <= nf_so_far',
                          'nf_so_far <= maxfun', 'maxfun == G.maxfun', 'not G.pending', 'nruns_so_far >= 0', 'G.offered == G.lastk', 'G.rows >= 0',
                          'fresh evaluation needs budget:: implies(isnone(r0_avg_old), nf_so_far < maxfun)',
-                         'implies(params("init.run_in_parallel"), params("init.random_initial_directions"))'],
+                         'implies(params("init.run_in_parallel"), params("init.random_initial_directions"))',
+                         'parameter inside its range (established by the parameter check of solve):: params("restarts.hard.increase_ndirs_initial_amt") >= 0'],
                modifies=['G.calls', 'G.pts', 'G.pending', 'G.nanflag', 'G.restarts', 'G.lastx', 'G.lastvals', 'G.lastk', 'G.offered', 'G.proj',
-                         'G.ent', 'G.entjac', 'G.rows', 'G.better', 'G.savedver'] + MODEL_GHOSTS + [
+                         'G.ent', 'G.entjac', 'G.rows', 'G.better', 'G.savedver', 'G.fullinit'] + MODEL_GHOSTS + [
                          'params[growing.full_rank.use_full_rank_interp]', 'params[growing.perturb_trust_region_step]',
                          'params[growing.delta_scale_new_dirns]'],
                result=('val', 'val', 'val', 'opt:val', 'int', 'int', 'int', 'int', 'exit', 'unk', 'int', 'opt:val'),
@@ -227,6 +236,8 @@ def build(repo):
                            ('every stored point has all its samples:: G.offered == G.lastk', 'C02', 'C03', 'C17'),
                            ('run accounting:: nruns_so_far == old(nruns_so_far) + G.restarts - old(G.restarts)', 'C02', 'C04', 'C08', 'C10', 'C18'),
                            'control.maxfun == maxfun', 'nruns_so_far >= 0', 'G.calls >= old(G.calls)',
+                           ('(C19 N5) when the caller leaves growing.ndirs_initial at its default npt - 1 (or above) the initial set is complete, so the run never enters the growing phase '
+                            '(whose safety and new-direction steps draw random directions):: implies(G.fullinit and not G.proj, finished_growing)', 'C19'),
                            'G.restarts >= old(G.restarts)', 'G.rows >= 0'],
                loops={'for:i#0': ['!nodefault:: True',
                           'nf == nf_so_far + i_', 'num_samples_run == i_', 'G.calls == nf', 'nf <= maxfun',
@@ -253,6 +264,8 @@ def build(repo):
                ]},
                ghost_return=[('G.pending', 'False'), ('G.offered', 'G.lastk')],
                ghost_after_assign={'ratio': [('G.better', 'POS(ratio)')]},
+               ghost_before={'Controller.initialise_coordinate_directions#1': [('G.fullinit', 'params("growing.ndirs_initial") >= npt - 1')],
+                             'Controller.initialise_random_directions#1': [('G.fullinit', 'params("growing.ndirs_initial") >= npt - 1')]},
                ghost_return_at={'return#1': [('G.ent', 'newent(result[0], result[1], result[2], result[4], result[10])')]},
                ensures=[('returned (x, resid, obj, nsamples, eval number) is one whole entry:: result[0] == EX(G.ent) and result[1] == ER(G.ent) and '
                          'result[2] == EO(G.ent) and result[4] == ENS(G.ent) and result[10] == EEN(G.ent)', 'C03'),
